@@ -13,7 +13,7 @@ ap.add_argument('src'); ap.add_argument('--tier', default='quick'); ap.add_argum
 ap.add_argument('--prop', default=None)
 ap.add_argument('--as', dest='as_id', default=None, help='store under this id')
 a = ap.parse_args()
-src = a.src.rstrip('/')
+src = os.path.abspath(a.src.rstrip('/'))
 sid = a.as_id or os.path.basename(src)
 prop = a.prop or sid.split('-')[0]
 env = dict(os.environ, GOFLAGS='-mod=mod', GOPROXY='off', GOSUMDB='off', GOTOOLCHAIN='local')
